@@ -89,7 +89,7 @@ func freshAfter(v ssa.Value, s *ssa.Call) bool {
 }
 
 func checkC02(c *Check) {
-	c.Explanation = "Structural necessary conditions of exact metering, decided on all CFG paths of the escrow keeper: (R1) every store write / payout in PaymentCreate, PaymentWithdraw, PaymentClose, AccountClose is dominated by the success edge of a settlement, and every record mutated after the settlement was (re)loaded after it (no stale pre-settlement copy is written back); (R2) a new payment is stored only after rate!=0 and denom==account denom; (R3) the overdrawn state is persisted only when the remainder is exhausted; (R4) double entry inside the three distribution helpers: the value credited to each payee is the value accumulated and the accumulated total (and nothing else) is what is added to Transferred and subtracted from Balance and the remainder; full-block credit and debit multiply by the same block count and the block rate handed in is the sum of the rates of the same payment list; (R5) SettledAt is only ever assigned ctx.BlockHeight(), in the constructor and the settle core, before the account is persisted."
+	c.Explanation = "Structural necessary conditions of exact metering, decided on all CFG paths of the escrow keeper: (R1) every store write / payout in PaymentCreate, PaymentWithdraw, PaymentClose, AccountClose is dominated by the success edge of a settlement, and every record mutated after the settlement was (re)loaded after it (no stale pre-settlement copy is written back); (R2) a new payment is stored only after rate!=0 and denom==account denom; (R3) the overdrawn state is persisted only when the remainder is exhausted; (R4) double entry inside the three distribution helpers: the value credited to each payee is the value accumulated and the accumulated total (and nothing else) is what is added to Transferred and subtracted from Balance and the remainder; full-block credit and debit multiply by the same block count and the block rate handed in is the sum of the rates of the same payment list; (R5) SettledAt is only ever assigned ctx.BlockHeight(), in the constructor and the settle core, before the account is persisted. An in-place removal inside a scan re-examines the position it removed from."
 	c.NotDecided = "exactness of rate x blocks, the weighted/even overdraft split and the 'at most one further block' bound (sdk.Int arithmetic)"
 	l := c.L
 	kfuncs := l.pkgFuncs("x/escrow/keeper")
@@ -279,6 +279,7 @@ func checkC02(c *Check) {
 	c.decodeTargetRule("R8", []string{"x/escrow/keeper"})
 	c.escrowExportComplete("R8")
 	c.distributeAlways("R4")
+	c.removalSkipsNext("R7", []string{"x/escrow/keeper"})
 
 	// ---- R5 SettledAt
 	nset := 0
@@ -993,5 +994,68 @@ func (c *Check) distributeAlways(rule string) {
 	}
 	if n < 3 {
 		c.Info(rule, "distribution helpers: fewer loops over payments found than on the pinned tree, not decided", token.NoPos, itoa(n))
+	}
+}
+
+// removalSkipsNext: the in-place removal idiom `s = append(s[:i], s[i+1:]...)` inside a scan over s moves the next
+// element to position i. If the scan then advances to i+1 on the path that removed, that element is never examined:
+// in the settlement's list of open payments a closed payment survives the filter and keeps accruing. The rule looks
+// at every such removal in a loop whose index is the phi the removal is written with: the back edge reached from
+// the removal must not carry plainly "index + 1".
+func (c *Check) removalSkipsNext(rule string, rels []string) {
+	l := c.L
+	n := 0
+	for _, rel := range rels {
+		for _, fn := range l.pkgFuncs(rel) {
+			eachInstr(fn, func(i ssa.Instruction) {
+				call, ok := i.(*ssa.Call)
+				if !ok || calleeFull(call) != "builtin.append" || len(call.Call.Args) != 2 {
+					return
+				}
+				head, ok1 := call.Call.Args[0].(*ssa.Slice)
+				tail, ok2 := call.Call.Args[1].(*ssa.Slice)
+				if !ok1 || !ok2 || head.High == nil || tail.Low == nil || head.Low != nil {
+					return
+				}
+				idx, isPhi := head.High.(*ssa.Phi)
+				if !isPhi {
+					return
+				}
+				next, isAdd := tail.Low.(*ssa.BinOp)
+				if !isAdd || next.Op != token.ADD || next.X != ssa.Value(idx) {
+					return
+				}
+				if k, isK := constInt(next.Y); !isK || k != 1 {
+					return
+				}
+				h := idx.Block()
+				if loopHeaderOf(call.Block()) != h {
+					return
+				}
+				n++
+				bad := false
+				for k, e := range idx.Edges {
+					p := h.Preds[k]
+					if !h.Dominates(p) {
+						continue // loop entry
+					}
+					inc, isInc := e.(*ssa.BinOp)
+					if !isInc || inc.Op != token.ADD || inc.X != ssa.Value(idx) {
+						continue
+					}
+					if k1, isK := constInt(inc.Y); !isK || k1 != 1 {
+						continue
+					}
+					// the plain increment arrives over this back edge: is it reachable from the removal?
+					if call.Block() == p || blockReachesAvoiding(call.Block(), p, h) {
+						bad = true
+					}
+				}
+				c.Ob(rule, "a scan in "+fnName(fn)+" that removes element i re-examines position i", call.Pos(), !bad, "after `append(s[:i], s[i+1:]...)` the loop goes on with i+1: the element that moved into position i is skipped (two adjacent entries to drop: the second one stays)")
+			})
+		}
+	}
+	if n == 0 {
+		c.Info(rule, "no in-place removal inside a scan in "+strings.Join(rels, ", "), token.NoPos, "")
 	}
 }
